@@ -54,6 +54,9 @@ REQUIRED_BRANCHES = [
     "logbesseli.series|series, log prefix", "logbesseli.series|CF1 + Wronskian",
     "polygamma.huge|logs", "polygamma.huge|asymptotic", "polygamma.highrec|reflection, generated row", "zeta.refl|lgamma form",
     "zeta.refl|gamma form",
+    "gammaq.bigx|finite sum", "gammaq.bigx|x >= 709", "gammaupper.bigx|x >= 709", "gammaq.bigxhalf|x >= 709",
+    "gammaupper.smalla|small a, tiny x", "gammaq.smalla|small a, tiny x", "besseli.tinyx|tiny x", "logbesseli.tinyx|tiny x",
+    "besseli.negx|negative order", "besseli.negx|non-negative order", "polygamma.halfhigh|x = 1/2",
 ]
 REQUIRED_FAMILIES = [
     "digamma.rec", "digamma.refl", "digamma.dup", "trigamma.rec", "trigamma.refl", "trigamma.dup",
